@@ -1,6 +1,8 @@
 import Drivers.Wire
 import Model.TableSpec
 import Model.DumpText
+import Model.DumpSeq
+import Model.SearchReturn
 
 /-!
 Driver for C04 (and the shared dump part of C06).
@@ -17,6 +19,10 @@ Values: `{"n":"num/den"}` number, `{"nf":"nan"|"inf"|"-inf"}`, `{"s":"text"}`, `
   `search()` call) or `{"new_search":"fresh"|"reuse"}` (a new `Search` object is constructed on
   the log_dir with a fresh evaluator / the previous evaluator instance: `searchInit`; with
   `"early":true` the object was constructed before the file existed: `searchInitEarly`).
+  A job may carry `"kind":"tuple"|"list"|"namedtuple"|"tuple-subclass"|"list-subclass"` = the Python class of
+  the container of its objectives (default tuple): `_on_done` and the dump are the kinded functions of
+  `Model/DumpSeq.lean` with the code's class tests.  Every dump step also says whether `search()` would hand
+  back a table now (`"returns"`: `searchReturn` of `Model/SearchReturn.lean`).
   With `"want_text":true` and `"numtext":[[rat,text]..]` every dump step also returns the bytes of
   the file so far (`fileText`).
 * `{"op":"csvparse","text":T}` / `{"op":"csvrender","rows":[[T..]..]}` : the CSV text layer.
@@ -106,10 +112,24 @@ def jOptNat (j : Json) : Except String (Option Nat) :=
   | .null => .ok none
   | _ => do return some (← j.getNat?)
 
-/-- jobs of a request: `set_output` + `_on_done`; malformed outputs are reported and dropped -/
-def buildJobs (jobsJ : Array Json) : Except String (List JobRec × List Json) := do
+def jSeqKind (j : Json) : Except String SeqKind := do
+  match j with
+  | .null => return .tuple
+  | _ =>
+    match (← j.getStr?) with
+    | "tuple" => return .tuple
+    | "list" => return .list
+    | "namedtuple" => return .namedtuple
+    | "tuple-subclass" => return .tupleSubclass
+    | "list-subclass" => return .listSubclass
+    | s => throw s!"bad container kind {s}"
+
+/-- jobs of a request: `set_output` + `_on_done`; malformed outputs are reported and dropped.  The third
+component is the container class of each job's objectives, in the order of the jobs. -/
+def buildJobsK (jobsJ : Array Json) : Except String (List JobRec × List Json × List SeqKind) := do
   let mut jobs : List JobRec := []
   let mut jobOut : List Json := []
+  let mut kinds : List SeqKind := []
   for jj in jobsJ.toList do
     let id ← (← field jj "id").getNat?
     let args ← jDict (← field jj "args")
@@ -117,14 +137,27 @@ def buildJobs (jobsJ : Array Json) : Except String (List JobRec × List Json) :=
     let meta0 ← jDict (← field jj "meta0")
     let out ← jVal (← field jj "out")
     let tg ← jVal (← field jj "tg")
+    let kind ← jSeqKind (fieldD jj "kind" Json.null)
     match setOutput id args status meta0 out with
     | .error e => jobOut := jobOut ++ [Json.mkObj [("err", errName e)]]
     | .ok r =>
-      let r' := onDone tg r
+      let r' := onDoneK codeTests (fun _ => kind) tg r
       jobs := jobs ++ [r']
+      kinds := kinds ++ [kind]
       jobOut := jobOut ++ [Json.mkObj [("err", Json.null), ("objective", ofVal r'.objective),
         ("status", r'.status.name), ("meta", ofDict r'.md)]]
+  return (jobs, jobOut, kinds)
+
+def buildJobs (jobsJ : Array Json) : Except String (List JobRec × List Json) := do
+  let (jobs, jobOut, _) ← buildJobsK jobsJ
   return (jobs, jobOut)
+
+/-- container class of the job with this id among the jobs handed to the dump so far (the most recent one:
+a fresh evaluator numbers its jobs from 0 again) -/
+def kindOfSeen (seen : List (Nat × SeqKind)) (id : Nat) : SeqKind :=
+  match seen.reverse.find? (fun p => p.1 == id) with
+  | some p => p.2
+  | none => .tuple
 
 /-- how Python printed the numbers of this request (`str(value)`), given by the harness -/
 def mkFmt (tbl : List (Rat × String)) : Val → Text
@@ -166,7 +199,7 @@ def handle (j : Json) : Except String Json := do
   | "scenario" =>
     let preset ← jOptNat (fieldD j "preset" Json.null)
     let old := (fieldD j "old" (Json.bool false)).getBool?.toOption.getD false
-    let (jobs, jobOut) ← buildJobs (← (← field j "jobs").getArr?)
+    let (jobs, jobOut, kinds) ← buildJobsK (← (← field j "jobs").getArr?)
     let numtext ← jList (fun e => do
       let p ← e.getArr?
       match p.toList with
@@ -178,6 +211,8 @@ def handle (j : Json) : Except String Json := do
     let mut st : DumpState := { DumpState.fresh with numObjective := preset }
     let mut tbl : Table := Table.empty
     let mut rest := jobs
+    let mut restK := kinds
+    let mut seen : List (Nat × SeqKind) := []
     let mut steps : List Json := []
     let parOf := fun (tb : Table) (order : List Nat) => match tb.header with
       | none => Json.mkObj [("kind", "nofile")]
@@ -212,10 +247,12 @@ def handle (j : Json) : Except String Json := do
         let cnt ← c.getNat?
         let fl ← f.getBool?
         let b := rest.take cnt
+        seen := seen ++ (b.map (·.id)).zip (restK.take cnt)
         rest := rest.drop cnt
+        restK := restK.drop cnt
         let st1 := { st with pending := st.pending ++ b }
         let branch := dumpBranch fl st1
-        let r := if old then dumpStepOld fl st1 else dumpStep fl st1
+        let r := if old then dumpStepOld fl st1 else dumpStepK codeTests (kindOfSeen seen) fl st1
         st := r.1
         tbl := tbl.add r.2
         let par ← match more with
@@ -226,6 +263,7 @@ def handle (j : Json) : Except String Json := do
           ("pending", Json.num (JsonNumber.fromNat st.pending.length)),
           ("table", Json.mkObj [("header", ofHeader tbl.header), ("rows", ofRows tbl.rows)]),
           ("text", if wantText then Json.str (String.ofList (fileText fmt tbl)) else Json.null),
+          ("returns", (searchReturn st tbl).isSome),
           ("pareto", par)]]
       | _ => throw "bad op"
     let order ← match j.getObjVal? "order" with
